@@ -191,7 +191,15 @@ func (st *State) builtin(name string, a []Value, c *ssa.CallCommon) Value {
 	case "print", "println":
 		return nil
 	case "recover":
-		return Iface{}
+		if st.panicking == nil {
+			return Iface{}
+		}
+		gp := st.panicking
+		st.panicking = nil
+		if i, ok := gp.Val.(Iface); ok && i.T != nil {
+			return i
+		}
+		return Iface{T: types.Typ[types.String], V: Str{S: gp.Msg}}
 	case "ssa:wrapnilchk":
 		if isNil(a[0]) {
 			panic(goPanic{Msg: "value method called using nil pointer"})
